@@ -40,7 +40,14 @@ def loop_ordinals(fnode):
     return {id(n): k for k, n in enumerate(loops)}, {n.lineno: k for k, n in enumerate(loops)}
 
 
-def verify_contract(registry, repo: Repo, contract, options=None) -> FunctionReport:
+def n_alternatives(contract):
+    n = 1
+    for ty in contract.params.values():
+        n *= len(ty.alternatives())
+    return n
+
+
+def verify_contract(registry, repo: Repo, contract, options=None, only_alt=None) -> FunctionReport:
     rep = FunctionReport(contract)
     t0 = time.time()
     try:
@@ -57,7 +64,9 @@ def verify_contract(registry, repo: Repo, contract, options=None) -> FunctionRep
     rep.sha = mod.sha(fnode)
     names = list(contract.params)
     alts = [contract.params[n].alternatives() for n in names]
-    for combo in itertools.product(*alts):
+    for alt_index, combo in enumerate(itertools.product(*alts)):
+        if only_alt is not None and alt_index != only_alt:
+            continue
         rep.alternatives += 1
         tag = "" if len(list(itertools.product(*alts))) == 1 else "|" + ",".join(repr(c) for c, a in zip(combo, alts) if len(a) > 1)
         try:
